@@ -114,6 +114,13 @@ class SheetGen:
         for _ in range(20):
             ty = rng.choice(TEST_TYPES)
             val = rng.choice(WORDS)
+            if any(isinstance(x, tuple) for x in src["tests"]) and rng.random() < 0.15:
+                # the same kind of test on a value that differs from an earlier one of this row in letter case only:
+                # two tests all the same (the sheet says which row each leads to)
+                ty0, val0 = rng.choice(sorted((x for x in src["tests"] if isinstance(x, tuple)), key=repr))
+                if isinstance(val0, str) and val0:
+                    ty = "" if ty0 == "has_any_word" else ty0
+                    val = rng.choice([val0.upper(), val0.lower(), val0.title(), val0.swapcase()])
             if src["type"] != "no_op" and rng.random() < 0.15:
                 # a test that takes no argument: the condition cell is blank (or carries a value that only
                 # names the category), the edge is conditional all the same
@@ -243,7 +250,8 @@ class SheetGen:
             row["message_text"] = f"val{n}"
             row["save_name"] = rng.choice(["color", "Fav Food", "age"])
         elif t in ("add_to_group", "remove_from_group"):
-            row["message_text"] = rng.choice(["GrpA", "GrpB", "Grp D"])
+            # (a group may well be called like a flow: they are different objects with identifiers of their own)
+            row["message_text"] = rng.choice(["GrpA", "GrpB", "Grp D", "GrpA", "child one"])
         elif t == "save_flow_result":
             row["message_text"] = f"res{n}"
             row["save_name"] = rng.choice(["answer", "score"])
